@@ -264,6 +264,17 @@ async def _run_script(ctx, inv, ev, script):
             lab = _label(ctx, inv, label)
             e = inv.dispatch(ctx.buses[bus], _mk_event(ctx, cls, lab))
             await inv.wait(e)
+        elif op == 'dispawait_swallow':
+            # dispatch and await; a refused dispatch (bus at capacity / queue full) is swallowed and nothing is awaited
+            _, bus, cls, label = st[:4]
+            lab = _label(ctx, inv, label)
+            try:
+                e = inv.dispatch(ctx.buses[bus], _mk_event(ctx, cls, lab))
+            except Exception:
+                e = None
+                ctx.rejected_labels = getattr(ctx, 'rejected_labels', []) + [(bus, lab)]
+            if e is not None:
+                await inv.wait(e)
         elif op == 'dispawait_shared':
             # several handlers dispatch (and await) the very same event object
             _, bus, cls, label = st
